@@ -42,6 +42,7 @@ def bStep (f : File Byte) : Op Byte → Out Byte × File Byte
   | .next => bNext f
   | .list => (.lines (bDrain (f.data.length + 2) f []).1, (bDrain (f.data.length + 2) f []).2)
   | .drain => (.lines (bDrain (f.data.length + 2) f []).1, (bDrain (f.data.length + 2) f []).2)
+  | .rollover => (.unit, f)
 
 theorem SBytes.rollover_buf (s : SBytes) : s.rollover.buf = s.buf := by
   unfold SBytes.rollover
@@ -95,7 +96,7 @@ theorem SBytes.drain_eq (fuel : Nat) (s : SBytes) (acc : List (List Byte)) :
 theorem SBytes.step_eq (s : SBytes) (op : Op Byte) :
     (s.step op).1 = (bStep s.buf op).1 ∧ (s.step op).2.buf = (bStep s.buf op).2 := by
   cases op <;> simp only [SBytes.step, bStep, SBytes.write_buf, SBytes.readline_eq, SBytes.next_eq,
-    SBytes.getvalue_eq, SBytes.len_eq, SBytes.drain_eq, and_self]
+    SBytes.getvalue_eq, SBytes.len_eq, SBytes.drain_eq, SBytes.rollover_buf, and_self]
 
 def bRun (f : File Byte) : List (Op Byte) → List (Out Byte) × File Byte
   | [] => ([], f)
@@ -218,6 +219,7 @@ theorem spec_inRange (f : File Byte) (op : Op Byte) (h : InRange f) (hok : okB f
       simp [InRange] at *; omega
   | list => simp [Spec.step, InRange] at *; omega
   | drain => simp [Spec.step, InRange] at *; omega
+  | rollover => simpa [Spec.step] using h
 
 theorem bRun_spec (f : File Byte) (ops : List (Op Byte)) (h : InRange f) (hv : validB f ops = true) :
     bRun f ops = Spec.run bytesSem f ops := by
